@@ -137,3 +137,67 @@ def possibly_unbound(func):
             if found:
                 out.append((name, st, nm))
     return out
+
+
+def value_of(func, expr, depth=0):
+    """the expression `expr` stands for inside `func`, as far as that is
+    evident from the shape of the code: a local that is assigned exactly
+    once (and is no parameter) is replaced by its definition, the call of a
+    private same-class / same-module helper that has a single `return` by
+    the value that helper returns (seen the same way, its parameters left
+    as they are).  The result is a new tree; sub-expressions are resolved
+    too.  Used to read constants that a refactoring moved into a local or a
+    small helper."""
+    import ast
+    import copy
+    from .model import walk_no_nested
+    from .paths import _helper_of
+    if expr is None or depth > 4:
+        return expr
+    params = set(getattr(func, 'params', ()) or ())
+
+    def single_def(name):
+        if name in params:
+            return None
+        defs = []
+        for n in walk_no_nested(func.node):
+            if isinstance(n, ast.Assign):
+                for t in n.targets:
+                    if isinstance(t, ast.Name) and t.id == name:
+                        defs.append(n.value)
+                    elif any(isinstance(x, ast.Name) and x.id == name
+                             for x in ast.walk(t)
+                             if not isinstance(t, ast.Name)) and \
+                            isinstance(t, (ast.Tuple, ast.List)):
+                        defs.append(None)
+            elif isinstance(n, (ast.AugAssign, ast.AnnAssign, ast.For,
+                                ast.With, ast.NamedExpr)):
+                tg = getattr(n, 'target', None)
+                if tg is not None and any(
+                        isinstance(x, ast.Name) and x.id == name
+                        for x in ast.walk(tg)):
+                    defs.append(None)
+        return defs[0] if len(defs) == 1 and defs[0] is not None else None
+
+    class R(ast.NodeTransformer):
+        def visit_Name(self, node):
+            if isinstance(node.ctx, ast.Load):
+                d = single_def(node.id)
+                if d is not None:
+                    return value_of(func, copy.deepcopy(d), depth + 1)
+            return node
+
+        def visit_Call(self, node):
+            self.generic_visit(node)
+            h = _helper_of(func, node) if hasattr(func, 'cls') else None
+            if h is not None and not node.args and not node.keywords:
+                rets = [r for r in walk_no_nested(h.node)
+                        if isinstance(r, ast.Return)]
+                if len(rets) == 1 and rets[0].value is not None:
+                    return value_of(h, copy.deepcopy(rets[0].value),
+                                    depth + 1)
+            return node
+
+        def visit_Lambda(self, node):
+            return node
+    return R().visit(copy.deepcopy(expr))
